@@ -12,18 +12,21 @@ Karatsuba column), tensor phase = product of the phases (`tensor_phase_rel`), sc
 namespace Ckks
 open Hal Core Core.Ops C02L Ckks.Sem Ckks.CoreSem KsDec Ckks.Tensor
 
-/-- **what `glwe_tensor_relinearize` has to provide (rank 1)**: on a tensor of `ts` limbs whose columns have digits within `3·2^(b−1)`
-it returns two columns of `rs` balanced limbs whose phase under `s` is the tensor phase under `(1, s₁, s₁²)`, modulo 1, within `Ur`
-units of the tensor's last limb -/
+/-- **what `glwe_tensor_relinearize` has to provide on one rank-1 tensor** `[T0, T1, T2]` of `ts` limbs: it returns two columns of `rs`
+balanced limbs whose phase under `s` is the tensor phase under `(1, s₁, s₁²)`, modulo 1, within `Ur` units of the tensor's last limb -/
+def RelinContractAt (N b ts rs : Nat) (mk : MulKey) (s : List Poly) (Ur : Int) (T0 T1 T2 : Col) : Prop :=
+  ∃ res, relinData mk N b rs [T0, T1, T2] = some res ∧ res.length = 2 ∧ (∀ c ∈ res, ColWF N rs c) ∧
+    (∀ c ∈ res, ∀ l ∈ c, ∀ v ∈ l, |v| ≤ 2 ^ (b - 1)) ∧
+    ∀ t, t < N → ∃ q e : Int,
+      2 ^ (b * ts) * valCoeff b (phase s (Ks.mkCt b N res)) t
+        = 2 ^ (b * rs) * (tensorPhase (s.getD 0 []) (valP b N T0) (valP b N T1) (valP b N T2)).getD t 0 + e + q * 2 ^ (b * rs + b * ts) ∧
+      |e| ≤ Ur * 2 ^ (b * ts)
+
+/-- … on every admissible tensor (columns of `ts` limbs, digits within `2^(b−1)`, `3·2^(b−1)`, `2^(b−1)`) -/
 def RelinContract (N b ts rs : Nat) (mk : MulKey) (s : List Poly) (Ur : Int) : Prop :=
   ∀ T0 T1 T2 : Col, ColWF N ts T0 → ColWF N ts T1 → ColWF N ts T2 →
     (∀ l ∈ T0, ∀ v ∈ l, |v| ≤ 2 ^ (b - 1)) → (∀ l ∈ T1, ∀ v ∈ l, |v| ≤ 3 * 2 ^ (b - 1)) → (∀ l ∈ T2, ∀ v ∈ l, |v| ≤ 2 ^ (b - 1)) →
-    ∃ res, relinData mk N b rs [T0, T1, T2] = some res ∧ res.length = 2 ∧ (∀ c ∈ res, ColWF N rs c) ∧
-      (∀ c ∈ res, ∀ l ∈ c, ∀ v ∈ l, |v| ≤ 2 ^ (b - 1)) ∧
-      ∀ t, t < N → ∃ q e : Int,
-        2 ^ (b * ts) * valCoeff b (phase s (Ks.mkCt b N res)) t
-          = 2 ^ (b * rs) * (tensorPhase (s.getD 0 []) (valP b N T0) (valP b N T1) (valP b N T2)).getD t 0 + e + q * 2 ^ (b * rs + b * ts) ∧
-        |e| ≤ Ur * 2 ^ (b * ts)
+    RelinContractAt N b ts rs mk s Ur T0 T1 T2
 
 /-- the phase polynomial of a rank-1 ciphertext -/
 theorem valP_phase2 {N L : Nat} (b : Nat) (s : List Poly) (hs : s ≠ []) (c0 c1 : Col) (h0 : ColWF N L c0) (h1 : ColWF N L c1) :
@@ -199,14 +202,20 @@ per column, `H₁ = 4·L_b·N·2^b` the truncation of the accumulators, weighted
 has more limbs than the tensor, plus the relinearisation -/
 def mulCtU (N b Lb ts rs : Nat) (s1 : Poly) (Ur : Int) : Int := tensorU N b Lb s1 * 2 ^ (b * (rs - ts)) + Ur
 
-/-- **`ckks_mul_into` (rank 1) satisfies the product contract, given the relinearisation contract.** -/
+/-- **`ckks_mul_into` (rank 1) satisfies the product contract, given the relinearisation contract on the tensor it executes.** -/
 theorem mulAdm_of_relin {env : Env} (he : EnvOK env) {N : Nat} (hN : 0 < N) {mk : MulKey} {dst a b : DCt} {Hd : Int}
     (hd : GB N env.base2k 1 Hd dst.g) (ha : DOK env N 1 a) (hb : DOK env N 1 b) {m : Ct}
     (hm : mulInto env dst.ct a.ct b.ct = .ok m) {q : MulP} (hq : mulCtParams env dst.ct a.ct b.ct = .ok q)
     (hhi : (cnvOffsetSplit env.base2k q.cnv).1 ≤ divCeil a.md.effK env.base2k + divCeil b.md.effK env.base2k - 1)
     (hroom : 2 ^ env.base2k * (4 * (divCeil b.md.effK env.base2k : Int) * N * 2 ^ env.base2k) + 8 ≤ 2 ^ (bitsOf mk.big - 2))
     {s : List Poly} (hs : s ≠ []) {Ur : Int}
-    (hrel : RelinContract N env.base2k (max a.g.size b.g.size) dst.g.size mk s Ur) :
+    (hrel : ∀ T0 T1 T2, Core.tensorApply false mk.big N env.base2k (max a.g.size b.g.size) q.cnv env.base2k
+        (effCols env.base2k a.md.effK a.g) a.md.effK (effCols env.base2k b.md.effK b.g) b.md.effK
+        (zeroC N (tensorCols a.g) (max a.g.size b.g.size)) = some [T0, T1, T2] →
+      ColWF N (max a.g.size b.g.size) T0 → ColWF N (max a.g.size b.g.size) T1 → ColWF N (max a.g.size b.g.size) T2 →
+      (∀ l ∈ T0, ∀ v ∈ l, |v| ≤ 2 ^ (env.base2k - 1)) → (∀ l ∈ T1, ∀ v ∈ l, |v| ≤ 3 * 2 ^ (env.base2k - 1)) →
+      (∀ l ∈ T2, ∀ v ∈ l, |v| ≤ 2 ^ (env.base2k - 1)) →
+      RelinContractAt N env.base2k (max a.g.size b.g.size) dst.g.size mk s Ur T0 T1 T2) :
     MulAdm env N 1 s (mulCtU N env.base2k (divCeil b.md.effK env.base2k) (max a.g.size b.g.size) dst.g.size (s.getD 0 []) Ur : Int)
       dst a b (dMulInto env N mk dst a b) q := by
   have hm' := hm
@@ -222,7 +231,7 @@ theorem mulAdm_of_relin {env : Env} (he : EnvOK env) {N : Nat} (hN : 0 < N) {mk 
     omega
   obtain ⟨T0, T1, T2, htens, wT0, wT1, wT2, dT0, dT1, dT2, hTv⟩ := tensor_of_dok hN mk.big he.hi hma hmb (max a.g.size b.g.size) q.cnv hts1
     hhi hroom s hs
-  obtain ⟨res, hrl, hrlen, hrwf, hrd, hrv⟩ := hrel T0 T1 T2 wT0 wT1 wT2 dT0 dT1 dT2
+  obtain ⟨res, hrl, hrlen, hrwf, hrd, hrv⟩ := hrel T0 T1 T2 htens wT0 wT1 wT2 dT0 dT1 dT2
   have hne : res ≠ [] := by intro e; rw [e] at hrlen; simp at hrlen
   have hsz' : ({ dst.g with cols := res } : GLWE).size = dst.g.size := by
     show (res.getD 0 []).length = dst.g.size
